@@ -3,6 +3,7 @@
 # Runs the quick checks (default: the property named in meta.json) against a scratch copy of /repo with
 # /verif/seeded/<name>/patch.diff applied (VERIF_REPO points the driver at the copy; evidence and replay files of these runs go
 # to a scratch directory, not to /verif/evidence). /repo itself is never modified. Prints one line per check.
+# Environment: TIER=quick|thorough (default quick), ONLY=<substring of obligation ids>.
 set -u
 name=$1; shift
 dir=/verif/seeded/$name
@@ -15,7 +16,7 @@ mkdir -p $scratch/repo && git -C /repo archive HEAD include | tar -x -C $scratch
 ( cd $scratch/repo && patch -p1 -s < $dir/patch.diff ) || { echo "patch does not apply"; exit 2; }
 cd /verif
 for c in $checks; do
-  s=$(date +%s); out=$(VERIF_REPO=$scratch/repo VERIF_OUT=$scratch/out ./vf check $c --tier ${TIER:-quick} 2>&1); rc=$?; e=$(date +%s)
+  s=$(date +%s); out=$(VERIF_REPO=$scratch/repo VERIF_OUT=$scratch/out ./vf check $c --tier ${TIER:-quick} ${ONLY:+--only $ONLY} 2>&1); rc=$?; e=$(date +%s)
   nv=$(echo "$out" | grep -c '^VIOLATION')
   echo "seed=$name check=$c exit=$rc violations=$nv wall=$((e-s))s :: $(echo "$out" | tail -1)"
   echo "$out" | grep -E "counterexample:|UNDECIDED" | head -3 | cut -c1-400
